@@ -81,7 +81,7 @@ Flat(ss) == FoldLeft(LAMBDA a, c : a \o c, <<>>, ss)
 Set(s) == {s[i] : i \in 1..Len(s)}
 
 Init ==
-    /\ status = "S" /\ lock = "free" /\ tr = 0 /\ tconn = FALSE /\ lst = "none" /\ trigT = FALSE
+    /\ status = "S" /\ lock = <<"free", 0>> /\ tr = 0 /\ tconn = FALSE /\ lst = "none" /\ trigT = FALSE
     /\ inQ = <<>> /\ outQ = <<>> /\ inRest = <<>> /\ outRest = <<>> /\ junk = {}
     /\ sin = <<>> /\ cout = <<>> /\ tsrv = [p \in Pairs |-> <<>>] /\ tcli = [p \in Pairs |-> <<>>]
     /\ fedC = <<>> /\ fedS = <<>> /\ fedTC = [p \in Pairs |-> <<>>] /\ fedTS = [p \in Pairs |-> <<>>]
@@ -124,19 +124,19 @@ InLoad ==
     /\ UNCHANGED <<shared, bufs, outs, hist, bufI, pO, pTI, pTO, pW, conn>>
 
 InLock ==      \* addHandshakeBuffer(stdinBuffer, buf, false): Lock; status, tunnelConnected re-read
-    /\ pcI = "lock" /\ lock = "free"
-    /\ lock' = "In" /\ stI' = status
+    /\ pcI = "lock" /\ lock = <<"free", 0>>
+    /\ lock' = <<"In", 0>> /\ stI' = status
     /\ pcI' = (IF status = "H" /\ (ParkRule = "always" \/ ~tconn) THEN "park" ELSE "skip")
     /\ UNCHANGED <<status, tr, tconn, lst, trigT, bufs, outs, hist, bufI, pO, pTI, pTO, pW, conn>>
 
 InPark ==
-    /\ pcI = "park" /\ lock = "In"
-    /\ lock' = "free" /\ inQ' = Append(inQ, bufI) /\ bufI' = <<>> /\ pcI' = "read"
+    /\ pcI = "park" /\ lock = <<"In", 0>>
+    /\ lock' = <<"free", 0>> /\ inQ' = Append(inQ, bufI) /\ bufI' = <<>> /\ pcI' = "read"
     /\ UNCHANGED <<status, tr, tconn, lst, trigT, outQ, inRest, outRest, junk, outs, hist, stI, pO, pTI, pTO, pW, conn>>
 
 InSkip ==
-    /\ pcI = "skip" /\ lock = "In"
-    /\ lock' = "free" /\ pcI' = "fwd"
+    /\ pcI = "skip" /\ lock = <<"In", 0>>
+    /\ lock' = <<"free", 0>> /\ pcI' = "fwd"
     /\ UNCHANGED <<status, tr, tconn, lst, trigT, bufs, outs, hist, bufI, stI, pO, pTI, pTO, pW, conn>>
 
 InFwd ==       \* osStdinChan <- buf  (in-band, whatever the tunnel state)
@@ -166,19 +166,19 @@ OutLoad ==
     /\ UNCHANGED <<shared, bufs, outs, hist, bufO, pI, pTI, pTO, pW, conn>>
 
 OutLock ==
-    /\ pcO = "lock" /\ lock = "free"
-    /\ lock' = "Out" /\ stO' = status
+    /\ pcO = "lock" /\ lock = <<"free", 0>>
+    /\ lock' = <<"Out", 0>> /\ stO' = status
     /\ pcO' = (IF status = "H" /\ (ParkRule = "always" \/ ~tconn) THEN "park" ELSE "skip")
     /\ UNCHANGED <<status, tr, tconn, lst, trigT, bufs, outs, hist, bufO, pI, pTI, pTO, pW, conn>>
 
 OutPark ==
-    /\ pcO = "park" /\ lock = "Out"
-    /\ lock' = "free" /\ outQ' = Append(outQ, bufO) /\ bufO' = <<>> /\ pcO' = "read"
+    /\ pcO = "park" /\ lock = <<"Out", 0>>
+    /\ lock' = <<"free", 0>> /\ outQ' = Append(outQ, bufO) /\ bufO' = <<>> /\ pcO' = "read"
     /\ UNCHANGED <<status, tr, tconn, lst, trigT, inQ, inRest, outRest, junk, outs, hist, stO, pI, pTI, pTO, pW, conn>>
 
 OutSkip ==
-    /\ pcO = "skip" /\ lock = "Out"
-    /\ lock' = "free" /\ pcO' = "fwd"
+    /\ pcO = "skip" /\ lock = <<"Out", 0>>
+    /\ lock' = <<"free", 0>> /\ pcO' = "fwd"
     /\ UNCHANGED <<status, tr, tconn, lst, trigT, bufs, outs, hist, bufO, stO, pI, pTI, pTO, pW, conn>>
 
 OutFwd ==      \* transferring: bypass (+ end markers); otherwise the detector; a trigger goes to OutStoreH
@@ -266,8 +266,8 @@ WkErrS ==
     /\ UNCHANGED <<shared, bufs, cout, tcli, hist, pI, pO, pTI, pTO, wtok, werr, conn>>
 
 WkFlushLock == \* flushHandshakeBuffer: Lock; pop everything, each chunk routed by tunnelRelay && tunnelConnected
-    /\ pcW = "flush" /\ lock = "free"
-    /\ lock' = "Wk"
+    /\ pcW = "flush" /\ lock = <<"free", 0>>
+    /\ lock' = <<"Wk", 0>>
     /\ ToServer(inRest \o Flat(inQ), FlushRoute = "real")
     /\ ToClient(outRest \o Flat(outQ), FlushRoute = "real")
     /\ inQ' = <<>> /\ outQ' = <<>> /\ inRest' = <<>> /\ outRest' = <<>>
@@ -286,8 +286,8 @@ WkClear ==
     /\ UNCHANGED <<status, lock, trigT, bufs, outs, hist, pI, pO, pTI, pTO, wtok, werr, acc, hp, chC, chS, pcl, psv, rcC, rcS>>
 
 WkUnlock ==
-    /\ pcW = "unlock" /\ lock = "Wk"
-    /\ lock' = "free" /\ pcW' = "done"
+    /\ pcW = "unlock" /\ lock = <<"Wk", 0>>
+    /\ lock' = <<"free", 0>> /\ pcW' = "done"
     /\ UNCHANGED <<status, tr, tconn, lst, trigT, bufs, outs, hist, pI, pO, pTI, pTO, wtok, werr, conn>>
 
 (* ------------------------------ Acc / H[p]: acceptOnTunnel, handleTunnelConn ------------------------------ *)
@@ -360,20 +360,20 @@ TILoad(p) ==      \* t.relay.Load(); r.relayStatus.Load()
     /\ UNCHANGED <<shared, bufs, outs, hist, bufTI, pI, pO, pTO, pW, conn>>
 
 TILock(p) ==      \* addHandshakeBuffer(stdinBuffer, buf, true)
-    /\ pcTI[p] = "lock" /\ lock = "free"
+    /\ pcTI[p] = "lock" /\ lock = <<"free", 0>>
     /\ lock' = <<"TI", p>> /\ stTI' = [stTI EXCEPT ![p] = status]
     /\ pcTI' = [pcTI EXCEPT ![p] = IF status = "H" THEN "park" ELSE "skip"]
     /\ UNCHANGED <<status, tr, tconn, lst, trigT, bufs, outs, hist, bufTI, pI, pO, pTO, pW, conn>>
 
 TIPark(p) ==
     /\ pcTI[p] = "park" /\ lock = <<"TI", p>>
-    /\ lock' = "free" /\ inQ' = Append(inQ, bufTI[p]) /\ bufTI' = [bufTI EXCEPT ![p] = <<>>]
+    /\ lock' = <<"free", 0>> /\ inQ' = Append(inQ, bufTI[p]) /\ bufTI' = [bufTI EXCEPT ![p] = <<>>]
     /\ pcTI' = [pcTI EXCEPT ![p] = "read"]
     /\ UNCHANGED <<status, tr, tconn, lst, trigT, outQ, inRest, outRest, junk, outs, hist, stTI, pI, pO, pTO, pW, conn>>
 
 TISkip(p) ==
     /\ pcTI[p] = "skip" /\ lock = <<"TI", p>>
-    /\ lock' = "free" /\ pcTI' = [pcTI EXCEPT ![p] = AfterT(stTI[p], bufTI[p])]
+    /\ lock' = <<"free", 0>> /\ pcTI' = [pcTI EXCEPT ![p] = AfterT(stTI[p], bufTI[p])]
     /\ UNCHANGED <<status, tr, tconn, lst, trigT, bufs, outs, hist, bufTI, stTI, pI, pO, pTO, pW, conn>>
 
 TIMark(p) ==      \* resetToStandby(transferring) *before* the chunk is forwarded
@@ -423,20 +423,20 @@ TOLoad(p) ==
     /\ UNCHANGED <<shared, bufs, outs, hist, bufTO, pI, pO, pTI, pW, conn>>
 
 TOLock(p) ==
-    /\ pcTO[p] = "lock" /\ lock = "free"
+    /\ pcTO[p] = "lock" /\ lock = <<"free", 0>>
     /\ lock' = <<"TO", p>> /\ stTO' = [stTO EXCEPT ![p] = status]
     /\ pcTO' = [pcTO EXCEPT ![p] = IF status = "H" THEN "park" ELSE "skip"]
     /\ UNCHANGED <<status, tr, tconn, lst, trigT, bufs, outs, hist, bufTO, pI, pO, pTI, pW, conn>>
 
 TOPark(p) ==
     /\ pcTO[p] = "park" /\ lock = <<"TO", p>>
-    /\ lock' = "free" /\ outQ' = Append(outQ, bufTO[p]) /\ bufTO' = [bufTO EXCEPT ![p] = <<>>]
+    /\ lock' = <<"free", 0>> /\ outQ' = Append(outQ, bufTO[p]) /\ bufTO' = [bufTO EXCEPT ![p] = <<>>]
     /\ pcTO' = [pcTO EXCEPT ![p] = "read"]
     /\ UNCHANGED <<status, tr, tconn, lst, trigT, inQ, inRest, outRest, junk, outs, hist, stTO, pI, pO, pTI, pW, conn>>
 
 TOSkip(p) ==
     /\ pcTO[p] = "skip" /\ lock = <<"TO", p>>
-    /\ lock' = "free" /\ pcTO' = [pcTO EXCEPT ![p] = AfterT(stTO[p], bufTO[p])]
+    /\ lock' = <<"free", 0>> /\ pcTO' = [pcTO EXCEPT ![p] = AfterT(stTO[p], bufTO[p])]
     /\ UNCHANGED <<status, tr, tconn, lst, trigT, bufs, outs, hist, bufTO, stTO, pI, pO, pTI, pW, conn>>
 
 TOMark(p) ==
@@ -506,6 +506,11 @@ Dial(p) ==        \* the client saw the trigger of its round (with the relay's p
     /\ pcl' = [pcl EXCEPT ![p] = "dialed"]
     /\ UNCHANGED <<shared, bufs, outs, hist, pI, pO, pTI, pTO, pW, acc, hp, trRelay, chC, chS, psv, rcC, rcS>>
 
+DialDropped(p) == \* the listener was closed before Accept took the connection: the kernel resets it, the client gives up
+    /\ pcl[p] = "dialed" /\ hp[p] = "idle" /\ lst = "none"
+    /\ pcl' = [pcl EXCEPT ![p] = "closed"]
+    /\ UNCHANGED <<shared, bufs, outs, hist, pI, pO, pTI, pTO, pW, acc, hp, trRelay, chC, chS, psv, rcC, rcS>>
+
 CliTunReady(p) == /\ nTI[p] < Len(CliTun[p]) /\ pcl[p] = "open"
                   /\ LET c == CliTun[p][nTI[p] + 1] IN
                      /\ Needs(c, {END}, tcli[p], CFG)
@@ -544,7 +549,7 @@ NextEnv ==
     \/ (CliReady /\ InRead(CliChunks[nIn + 1]))
     \/ (SrvReady /\ OutRead(SrvChunks[nOut + 1]))
     \/ \E p \in Pairs :
-          \/ Dial(p) \/ CliClose(p) \/ SrvClose(p)
+          \/ Dial(p) \/ DialDropped(p) \/ CliClose(p) \/ SrvClose(p)
           \/ (CliTunReady(p) /\ TIRead(p, CliTun[p][nTI[p] + 1]))
           \/ (SrvTunReady(p) /\ TORead(p, SrvTun[p][nTO[p] + 1]))
 
